@@ -127,7 +127,7 @@ func c03Alphabet(tier string) []sym {
 	return out
 }
 
-var c03Priors = []string{"empty", "a-symlink-out", "a-dir-with-symlink", "a-file", "b-relsymlink-out"}
+var c03Priors = []string{"empty", "a-symlink-out", "a-dir-with-symlink", "a-file", "b-relsymlink-out", "a-chain-out", "a-chain-rel"}
 
 func c03Prior(name string) fsmodel.Tree {
 	T := fsmodel.T0
@@ -136,11 +136,17 @@ func c03Prior(name string) fsmodel.Tree {
 		return fsmodel.Tree{{Path: "a", Kind: fsmodel.Symlink, Perm: 0777, Mtime: T, Link: "/outside/d"}}
 	case "a-dir-with-symlink":
 		return fsmodel.Tree{{Path: "a", Kind: fsmodel.Dir, Perm: 0755, Mtime: T}, {Path: "a/b", Kind: fsmodel.Symlink, Perm: 0777, Mtime: T, Link: "/outside/f"},
-			{Path: "a/c", Kind: fsmodel.Symlink, Perm: 0777, Mtime: T, Link: relOutD}}
+			{Path: "a/c", Kind: fsmodel.Symlink, Perm: 0777, Mtime: T, Link: "../" + relOutD}}
 	case "a-file":
 		return fsmodel.Tree{{Path: "a", Kind: fsmodel.File, Perm: 0644, Mtime: T, Data: []byte("old")}}
 	case "b-relsymlink-out":
-		return fsmodel.Tree{{Path: "b", Kind: fsmodel.Symlink, Perm: 0777, Mtime: T, Link: "../../outside/d"}, {Path: "a", Kind: fsmodel.Dir, Perm: 0700, Mtime: T}}
+		return fsmodel.Tree{{Path: "b", Kind: fsmodel.Symlink, Perm: 0777, Mtime: T, Link: relOutD}, {Path: "a", Kind: fsmodel.Dir, Perm: 0700, Mtime: T}}
+	case "a-chain-out":
+		// a link whose first hop stays inside the destination and whose second hop leaves it
+		return fsmodel.Tree{{Path: "a", Kind: fsmodel.Symlink, Perm: 0777, Mtime: T, Link: "b"}, {Path: "b", Kind: fsmodel.Symlink, Perm: 0777, Mtime: T, Link: "/outside/d"}}
+	case "a-chain-rel":
+		return fsmodel.Tree{{Path: "a", Kind: fsmodel.Symlink, Perm: 0777, Mtime: T, Link: "c/../b"}, {Path: "b", Kind: fsmodel.Symlink, Perm: 0777, Mtime: T, Link: relOutD},
+			{Path: "c", Kind: fsmodel.Dir, Perm: 0755, Mtime: T}}
 	}
 	return nil
 }
@@ -152,14 +158,81 @@ type c03Case struct {
 	// Coop: after the script the peer behaves: end-of-stats marker, answers to REQs, FIN echoed,
 	// stream closed after FIN or ERR - so that everything the script planted is fully processed.
 	Coop bool `json:"coop,omitempty"`
+	// Deep > 0: the script is preceded by a valid chain of Deep nested directories (the last one named j) and a
+	// file j/f; "@" in the script's paths stands for the parent of j
+	Deep int `json:"deep,omitempty"`
 }
+
+func deepParent(n int) string {
+	var c []string
+	for i := 1; i < n; i++ {
+		c = append(c, fmt.Sprintf("d%d", i))
+	}
+	return strings.Join(c, "/")
+}
+
+// expanded is the packet sequence actually played: deep prefix + script with "@" resolved.
+func (c c03Case) expanded() []sym {
+	if c.Deep == 0 {
+		return c.Script
+	}
+	par := deepParent(c.Deep)
+	at := func(p string) string {
+		p = strings.ReplaceAll(p, "@", par)
+		return strings.TrimPrefix(p, "/")
+	}
+	var out []sym
+	cur := ""
+	for i := 1; i < c.Deep; i++ {
+		cur = path.Join(cur, fmt.Sprintf("d%d", i))
+		out = append(out, sym{T: "stat", Path: cur, Kind: "dir"})
+	}
+	out = append(out, sym{T: "stat", Path: at("@/j"), Kind: "dir"}, sym{T: "stat", Path: at("@/j/f"), Kind: "file"})
+	for _, s := range c.Script {
+		s.Path = at(s.Path)
+		if strings.HasPrefix(s.Kind, "hl:") {
+			s.Kind = "hl:" + at(s.Kind[3:])
+		}
+		out = append(out, s)
+	}
+	return out
+}
+
+// c03DeepScripts: what may follow the deep chain: the same directory again, names before and after it, its child
+// again, each as directory, file, outward symlink or hard link to the file below j.
+func c03DeepScripts() [][]sym {
+	var al []sym
+	for _, p := range []string{"@/j", "@/i", "@/j/f", "@/j/e", "@/k"} {
+		for _, k := range []string{"dir", "file", "symabs", "hl:@/j/f"} {
+			al = append(al, sym{T: "stat", Path: p, Kind: k})
+		}
+	}
+	al = append(al, sym{T: "end"}, sym{T: "fin"})
+	var out [][]sym
+	for _, a := range al {
+		out = append(out, []sym{a})
+		if a.T != "stat" {
+			continue
+		}
+		for _, b := range al {
+			out = append(out, []sym{a, b})
+		}
+	}
+	return out
+}
+
+var c03Depths = []int{9, 10, 11, 20}
 
 func (c c03Case) String() string {
 	s := make([]string, len(c.Script))
 	for i, x := range c.Script {
 		s[i] = x.String()
 	}
-	return fmt.Sprintf("script=[%s] prior=%s answer-reqs=%v cooperative-tail=%v", strings.Join(s, "; "), c.Prior, c.Answer, c.Coop)
+	deep := ""
+	if c.Deep > 0 {
+		deep = fmt.Sprintf(" after-a-valid-chain-of-depth=%d(@=%s)", c.Deep, deepParent(c.Deep))
+	}
+	return fmt.Sprintf("script=[%s] prior=%s answer-reqs=%v cooperative-tail=%v%s", strings.Join(s, "; "), c.Prior, c.Answer, c.Coop, deep)
 }
 
 // hostile is the scripted stream.
@@ -324,15 +397,16 @@ func judgeC03(root string, c c03Case) (string, string) {
 	// everything up to end of stream and return nil, while the differ still waits for the end marker
 	// or for content that was dropped: Receive then only returns when its context is cancelled. That is not a containment question; the harness cancels the
 	// context once the whole script has been consumed (counted in the evidence).
+	script := c.expanded()
 	unsolicitedFin := false
-	for _, s := range c.Script {
+	for _, s := range script {
 		if s.T == "fin" { // any FIN of the script precedes the receiver's own FIN
 			unsolicitedFin = true
 		}
 	}
 	ctx, cancel := context.WithCancel(context.Background())
 	defer cancel()
-	for _, s := range c.Script {
+	for _, s := range script {
 		h.queue = append(h.queue, s.packet())
 	}
 	if c.Coop {
@@ -395,7 +469,7 @@ func judgeC03(root string, c c03Case) (string, string) {
 		return "outside-changed", fmt.Sprintf("something outside the destination changed (Receive returned %v): %s", rerr, lineDiff(before, after))
 	}
 	// content for an id that cannot have been requested (id 7 with at most 3 STATs) => failure
-	for _, sy := range c.Script {
+	for _, sy := range script {
 		if sy.T == "fin" {
 			break
 		}
@@ -407,7 +481,7 @@ func judgeC03(root string, c c03Case) (string, string) {
 	sp := &statSpec{spec: specState{dirs: map[string]bool{}}, files: map[string]bool{}}
 	bad := -1
 	earlier := map[string]bool{}
-	for i, s := range c.Script {
+	for i, s := range script {
 		if s.T == "fin" || s.T == "err" || s.T == "end" {
 			break
 		}
@@ -422,10 +496,10 @@ func judgeC03(root string, c c03Case) (string, string) {
 	}
 	if bad >= 0 {
 		if rerr == nil {
-			return "invalid-stream-accepted", fmt.Sprintf("packet %d (%s) breaks the stream rules but Receive returned nil", bad, c.Script[bad])
+			return "invalid-stream-accepted", fmt.Sprintf("packet %d (%s) breaks the stream rules but Receive returned nil", bad, script[bad])
 		}
 		destAfter, _ := fsmodel.Snapshot(dest)
-		for _, s := range c.Script[bad:] {
+		for _, s := range script[bad:] {
 			p := path.Clean(s.Path)
 			if s.T != "stat" || s.Path == "" || earlier[s.Path] || earlier[p] {
 				continue
@@ -437,7 +511,7 @@ func judgeC03(root string, c c03Case) (string, string) {
 			// disappearing is a legitimate side effect of earlier packets (a directory replaced by a
 			// file, stale entries deleted); being created or rewritten is not
 			if a != nil && (b == nil || a.Ino != b.Ino || a.String() != b.String()) {
-				return "applied-after-offending", fmt.Sprintf("packet %d (%s) is the first offending one, yet %q was created or changed", bad, c.Script[bad], p)
+				return "applied-after-offending", fmt.Sprintf("packet %d (%s) is the first offending one, yet %q was created or changed", bad, script[bad], p)
 			}
 		}
 	}
@@ -546,6 +620,32 @@ func childC03(args []string) int {
 					out.Count[k]++
 					if out.Count[k] <= 3 {
 						// streamed at once: a later crash of this process must not lose it
+						json.NewEncoder(os.Stdout).Encode(c03Out{Viol: []c03Viol{{k, m, c}}})
+					} else {
+						json.NewEncoder(os.Stdout).Encode(c03Out{Count: map[string]int{k: 1}})
+					}
+				}
+			}
+		}
+	}
+	// the deep family (own index space after the main one, same sharding and restart protocol)
+	for _, depth := range c03Depths {
+		for _, sc := range c03DeepScripts() {
+			for mode := 0; mode < 3; mode++ {
+				i++
+				if i%n != shard || i < start {
+					continue
+				}
+				c := c03Case{Script: sc, Prior: "empty", Answer: mode == 0, Coop: mode == 2, Deep: depth}
+				if b, err := json.Marshal(map[string]any{"i": i, "case": c, "evals": out.Evals, "cancelled": cancelled.Load()}); err == nil {
+					cur.Truncate(0)
+					cur.WriteAt(b, 0)
+				}
+				k, m := judgeC03("/", c)
+				out.Evals++
+				if k != "" {
+					out.Count[k]++
+					if out.Count[k] <= 3 {
 						json.NewEncoder(os.Stdout).Encode(c03Out{Viol: []c03Viol{{k, m, c}}})
 					} else {
 						json.NewEncoder(os.Stdout).Encode(c03Out{Count: map[string]int{k: 1}})
